@@ -183,6 +183,13 @@ def rule_partial(rep):
                 if s["k"] == "let" and s["pat"]["k"] == "pident":
                     lenv[s["pat"]["name"]] = s["init"]
             fin = [n for n, v in lenv.items() if v.get("k") == "mcall" and v["name"] == "len" and names and names[0] in nbit(v)]
+            # `let frames_in = ch.as_ref().len().min(frames)` (or std::cmp::min(len, frames)): the clamp in one expression
+            fmin = [n for n, v in lenv.items() if v.get("k") == "mcall" and v["name"] == "min" and len(v["args"]) == 1 and names and
+                    ((v["recv"].get("k") == "mcall" and v["recv"]["name"] == "len" and names[0] in nbit(v["recv"]) and is_path(v["args"][0], fr)) or
+                     (is_path(v["recv"], fr) and v["args"][0].get("k") == "mcall" and v["args"][0]["name"] == "len" and names[0] in nbit(v["args"][0])))]
+            if fmin and not fin:
+                fin = fmin
+                clamp_ok = True
             if fin and zip_ok and len(names) == 2:
                 f_in = fin[0]
                 # clamp: if frames_in > frames { frames_in = frames }
